@@ -105,82 +105,164 @@ def oracles(res, gen_ok):
     return None
 
 
+
+def sample_lines(path, k=5, step=997, maxlen=600):
+    out = []
+    try:
+        with open(path) as f:
+            for i, l in enumerate(f):
+                if i % step == 0 and len(out) < k:
+                    out.append(l.rstrip("\n")[:maxlen])
+    except OSError:
+        pass
+    return out
+
+
+def pure_check(pid, tier, seed, gen_units, props_file, cmd, quick_args, thorough_args, describe,
+               pre_prove=None, assumptions=(), keys=None):
+    """Common flow of the properties whose code is regenerated by the translator:
+    harness (Go) -> cases; prove; oracle compares Go results with the generated definitions (GEN lines)
+    and with the hand-written specification (SPEC lines = concrete violations)."""
+    res = Result(pid, tier, seed)
+    cases = os.path.join(BUILD, "%s.%d.txt" % (pid.lower(), os.getpid()))
+    mm = cases + ".mm"
+    try:
+        with vlib.Lock():
+            okb, blog, exe = vlib.go_build("pure", "pure")
+        if not okb:
+            res.tie_broken.append("harness does not build against /repo: " + blog[-800:])
+            return res.finish()
+        # a first harness run is needed before proving when generated data come from it
+        deep = (tier == "thorough")
+        rc, out = vlib.run([exe, cmd, "-seed", str(seed), "-out", cases] + (thorough_args if deep else quick_args), timeout=3000)
+        if rc != 0:
+            res.tie_broken.append("pure harness failed: " + out[-800:])
+            return res.finish()
+        with vlib.Lock():
+            if pre_prove:
+                pre_prove(res, cases)
+            gen_ok = prove(res, gen_units, props_file)
+            flavour = oracles(res, gen_ok)
+        if res.tie_broken and not deep:
+            # proof or translation broken: search with the larger budget
+            rc, out = vlib.run([exe, cmd, "-seed", str(seed), "-out", cases] + thorough_args, timeout=3000)
+            deep = True
+        summ = {}
+        if flavour:
+            rc, so, se = vlib.oracle([cmd, cases, mm], flavour)
+            try:
+                summ = json.loads(so)
+            except Exception:
+                res.tie_broken.append("oracle failed: " + (so + se)[-500:])
+        lines = open(mm).read().split("\n") if os.path.exists(mm) else []
+        seen = set()
+        for l in lines:
+            tag = l.split(" ", 1)[0]
+            if tag in ("SPEC", "CALLS", "NATSREP") and tag not in seen:
+                seen.add(tag)
+                body, _, why = l.partition(" | ")
+                res.violations.append((describe(tag, why), {"property": pid, "kind": tag, "case": body.split(" ", 1)[1] if " " in body else body,
+                                                            "why": why, "fields": keys,
+                                                            "replay": "bin/check %s --replay <this file>" % pid}))
+        nbad = sum(summ.get(k, 0) for k in summ if k.endswith("_mismatch"))
+        if nbad > 0:
+            first = [l for l in lines if l.split(" ", 1)[0] in ("GEN", "TEXT")][:1]
+            res.tie_broken.append("correspondence: the model regenerated from the source differs from the implementation on %d cases, e.g. %s"
+                                  % (nbad, first[0][:400] if first else "?"))
+        res.coverage.update({
+            "evaluations": summ.get("cases", 0),
+            "distinct_nontrivial": len([k for k, v in summ.get("classes", {}).items() if v > 0]),
+            "classes": summ.get("classes", {}),
+            "oracle": flavour,
+            "oracle_summary": {k: v for k, v in summ.items() if k != "classes"},
+            "traces_validated_against_impl": summ.get("cases", 0),
+            "exhaustive": False,
+            "samples": sample_lines(cases),
+        })
+        res.assumptions = list(assumptions)
+        return res
+    finally:
+        for p in (cases, mm):
+            try:
+                os.remove(p)
+            except OSError:
+                pass
+
+
 # =============================================================== C16
 def check_C16(tier, seed):
-    res = Result("C16", tier, seed)
-    with vlib.Lock():
-        gen_ok = prove(res, ["GenConfig.v"], "Props/C16.v")
-        flavour = oracles(res, gen_ok)
-        okb, blog, exe = vlib.go_build("pure", "pure")
-    if not okb:
-        res.tie_broken.append("harness does not build against /repo: " + blog[-800:])
-        return res.finish()
-    cases = os.path.join(BUILD, "c16.%d.txt" % os.getpid())
-    mm = cases + ".mm"
-    exhaustive = (tier == "thorough") or bool(res.tie_broken)
-    cmd = [exe, "c16", "-seed", str(seed), "-out", cases]
-    cmd += ["-exhaustive"] if exhaustive else ["-n", "60000"]
-    rc, out = vlib.run(cmd, timeout=1200)
-    if rc != 0:
-        res.tie_broken.append("pure harness failed: " + out[-800:])
-        return res.finish()
-    summ = {}
-    if flavour:
-        rc, so, se = vlib.oracle(["c16", cases, mm], flavour)
-        try:
-            summ = json.loads(so)
-        except Exception:
-            res.tie_broken.append("oracle failed: " + (so + se)[-500:])
-    lines = open(mm).read().split("\n") if os.path.exists(mm) else []
-    keys = "bucket group id ttl hb valint grace maxfail prio takeover impl_result provider_calls".split()
-
-    def as_case(line):
-        f = line.split(" | ")[0].split()[1:]
-        return dict(zip(keys, f))
-
-    for l in lines:
-        if l.startswith("SPEC "):
-            res.violations.append(("NewElection result differs from the documented rule (spec %s)" % l.split(" | ")[1],
-                                   {"property": "C16", "kind": "spec", "input": as_case(l),
-                                    "replay": "bin/check C16 --replay <this file>"}))
-            break
-    for l in lines:
-        if l.startswith("CALLS "):
-            res.violations.append(("constructor contacted the provider although it rejected the configuration",
-                                   {"property": "C16", "kind": "provider-called-before-validation", "input": as_case(l)}))
-            break
-    if summ.get("gen_mismatch", 0) > 0:
-        first = [l for l in lines if l.startswith("GEN ")][:1]
-        res.tie_broken.append("correspondence: generated validate_config differs from NewElection on %d inputs, e.g. %s"
-                              % (summ["gen_mismatch"], first[0] if first else "?"))
-    # coverage
-    samples = []
-    with open(cases) as f:
-        for i, l in enumerate(f):
-            if i % 997 == 0 and len(samples) < 5:
-                samples.append(dict(zip(keys, l.split())))
-    res.coverage.update({
-        "evaluations": summ.get("cases", 0),
-        "distinct_nontrivial": len([k for k, v in summ.get("classes", {}).items() if v > 0]),
-        "rule": "configurations on the boundary lattice of every rule (each duration at k*H-1, k*H, k*H+1, 0, +-1, +-1 year; "
-                "H from 1 ns to 1 year and non-positive; strings empty/non-empty; ints -2..3); "
-                "quick: 60000 seeded samples, thorough: the whole lattice; distinct_nontrivial counts the distinct outcome "
-                "classes reached (accepted, and rejected with each field name)",
-        "exhaustive": exhaustive,
-        "outcome_classes": summ.get("classes", {}),
-        "oracle": flavour,
-        "gen_mismatch": summ.get("gen_mismatch"),
-        "spec_checked": summ.get("spec_checked"),
-        "samples": samples,
-    })
-    res.assumptions = ["durations with |HeartbeatInterval| <= 2^61 ns (outside that range 3*H wraps in int64; witness overflow_accepts_short_ttl)",
-                       "the constructor fact ctor_validates_first is syntactic (first statement of newKVElection)"]
-    for p in (cases, mm):
-        try:
-            os.remove(p)
-        except OSError:
-            pass
+    def describe(tag, why):
+        if tag == "SPEC":
+            return "NewElection result differs from the documented rule (%s)" % why
+        return "constructor contacted the provider although it rejected the configuration"
+    res = pure_check("C16", tier, seed, ["GenConfig.v"], "Props/C16.v", "c16",
+                     ["-n", "60000"], ["-exhaustive"], describe,
+                     assumptions=["durations with |HeartbeatInterval| <= 2^61 ns (outside that range 3*H wraps in int64; witness overflow_accepts_short_ttl)",
+                                  "the constructor fact ctor_validates_first is syntactic (first statement of newKVElection validates and returns the error)"],
+                     keys="bucket group id ttl hb valint grace maxfail prio takeover impl_result provider_calls")
+    if isinstance(res, int):
+        return res
+    res.coverage["rule"] = ("configurations on the boundary lattice of every rule (each duration at k*H-1, k*H, k*H+1, 0, +-1, +-1 year; "
+                            "H from 1 ns to 1 year and non-positive; strings empty/non-empty; ints -2..3); quick: 60000 seeded samples, "
+                            "thorough (and whenever a proof or the translation breaks): the whole lattice of 2.56 million combinations; "
+                            "distinct_nontrivial = distinct outcome classes reached (accepted / rejected with each field name)")
+    res.coverage["exhaustive"] = (tier == "thorough")
     return res.finish()
 
 
-CHECKS = {"C16": check_C16}
+# =============================================================== C15
+def gen_nats_errors(res, cases):
+    """gen/GenNatsErrors.v: the error values captured from the real NATS client on this run."""
+    items = []
+    for l in open(cases):
+        f = l.split()
+        if f and f[0] == "N" and len(f) == 6:
+            text = bytes.fromhex(f[2]).decode("latin-1") if f[2] != "-" else ""
+            if f[3] != "000000":
+                res.tie_broken.append("a NATS error value is not representable as plain text in the model: " + l.strip())
+            if any(ord(c) < 32 or ord(c) > 126 for c in text):
+                res.tie_broken.append("non-printable NATS error text: " + l.strip())
+                continue
+            items.append('("%s", EPlain "%s")' % (f[1], text.replace('"', '""')))
+    body = ("(* GENERATED on every run by bin/check from the values the NATS client returned through the\n"
+            "   library's adapter against an embedded nats-server (harness/pure c15) — do not edit. *)\n"
+            "From LE Require Import Base Strs Err.\nLocal Open Scope string_scope.\n"
+            "Definition nats_errors : list (string * err) :=\n  [" + ";\n   ".join(items) + "].\n")
+    p = os.path.join(vlib.GEN, "GenNatsErrors.v")
+    old = open(p).read() if os.path.exists(p) else None
+    if old != body:
+        open(p, "w").write(body)
+
+
+def check_C15(tier, seed):
+    def describe(tag, why):
+        if tag == "NATSREP":
+            return "a NATS client error carries a classified cause the model does not represent"
+        return "classification not allowed by the property: " + why
+    res = pure_check("C15", tier, seed, ["GenErrors.v"], "Props/C15.v", "c15",
+                     ["-n", "40000"], ["-n", "600000"], describe, pre_prove=gen_nats_errors,
+                     assumptions=["error values: the algebra of Err.v (plain texts, the five classified sentinels, other sentinels by text, single-%w wrapping with "
+                                  "arbitrary prefix/suffix, TimeoutError/ElectionError/TokenValidationError/ValidationError with optional inner error); "
+                                  "errors.Join and multiple %w are not modelled",
+                                  "strings.ToLower is modelled on ASCII letters only (generated texts are ASCII plus a few lower-case UTF-8 letters)",
+                                  "NATS client values are represented by their Error() text; the harness checks on every run that errors.Is "
+                                  "(five sentinels) and errors.As(*TimeoutError) are all false for them",
+                                  "hybrids wrapping both a transient and a permanent typed cause are left unspecified (as in the property)"],
+                     keys="<serialised error value> | <Error() hex> <IsPermanentError> <IsTransientError>")
+    if isinstance(res, int):
+        return res
+    res.coverage["rule"] = ("seeded random error values of depth <= 7 over the algebra of Err.v with pattern-bearing, mixed-case and random texts, "
+                            "plus nil and the values captured from the real NATS client on this run; the Go Error() text and both classifier "
+                            "results are compared with the model (msg, generated is_permanent/is_transient) and with the specification class_ok; "
+                            "distinct_nontrivial = distinct (required class / observed class) combinations reached")
+    return res.finish()
+
+
+CHECKS = {"C16": check_C16, "C15": check_C15}
+
+
+def replay(pid, path):
+    """Prints the recorded failing case and re-runs the property's check (the harness regenerates the case
+    deterministically from its seed; the case itself is in the file)."""
+    print(open(path).read())
+    return CHECKS[pid]("quick", 1)
